@@ -265,4 +265,3 @@ func TestVerifC08_Proxy(t *testing.T) {
 		}
 	})
 }
-
